@@ -73,8 +73,11 @@ pub mod git {
 //!end
     pub uninterp spec fn git_changes(work_path: Seq<char>) -> Seq<Seq<char>>;
     // ASSUMED: git is not modelled (C02, C07 are not applicable); the change list is an uninterpreted function of the repository
-    #[verifier::external_body] pub async fn get_git_all_changes<'a>(o: &GitOptions<'a>, c: &tracking::Checkpoint, work_path: &path::Path) -> (r: Result<Vec<Change>, MonorailError>)
-        ensures r matches Ok(v) ==> change_views(v@) == git_changes(work_path@) { unimplemented!() }
+    // C09: git is only asked once the configuration's graph has been built and found acyclic - a cyclic configuration is rejected with the
+    // graph-cycle error before any other program is started
+    #[verifier::external_body] pub async fn get_git_all_changes<'a>(o: &GitOptions<'a>, c: &tracking::Checkpoint, work_path: &path::Path, Tracked(w): Tracked<&mut World>) -> (r: Result<Vec<Change>, MonorailError>)
+        requires old(w).graph_checked,
+        ensures *final(w) == *old(w), r matches Ok(v) ==> change_views(v@) == git_changes(work_path@) { unimplemented!() }
 }
 //!type src/core/mod.rs Change
 pub struct Change {
@@ -99,6 +102,12 @@ pub mod core {
         // ASSUMED here (proved in unit index: the visible set is the closure of exactly these roots)
         #[verifier::external_body] pub fn new(cfg: &'a Config, visible_targets: &HashSet<&String>, work_path: &path::Path) -> (r: Result<Index<'a>, MonorailError>)
             ensures r matches Ok(ix) ==> ix.roots == visible_targets@ && ix.ts == cfg.targets@ { unimplemented!() }
+        // R12 target for `core::Index::new(..)` inside handle_run: the same, and it records that the graph has been checked (a cyclic
+        // configuration makes it fail: proved in unit index)
+        #[verifier::external_body] pub fn new_w(Tracked(w): Tracked<&mut World>, cfg: &'a Config, visible_targets: &HashSet<&String>, work_path: &path::Path) -> (r: Result<Index<'a>, MonorailError>)
+            ensures r matches Ok(ix) ==> ix.roots == visible_targets@ && ix.ts == cfg.targets@ && final(w).graph_checked,
+                final(w).cp_file == old(w).cp_file, final(w).ran_groups == old(w).ran_groups, final(w).argmap_log == old(w).argmap_log, final(w).result_stored == old(w).result_stored, final(w).wiped == old(w).wiped,
+                final(w).executed == old(w).executed, final(w).pointer_saved == old(w).pointer_saved, final(w).recorded_id == old(w).recorded_id { unimplemented!() }
         #[verifier::external_body] pub fn get_target_index(&self, target: &str) -> (r: Result<&usize, MonorailError>)
             ensures r matches Ok(i) ==> *i < self.ts.len() && self.ts[*i as int].path@ == target@ { unimplemented!() }
     }
@@ -257,7 +266,7 @@ pub open spec fn selection_ok(cfg: Config, input: HandleRunInput, work_path: Seq
     }
 }
 
-//!fn src/app/run.rs handle_run rules=R1,R10 props=C05,C11,C12,C13,C19,C03
+//!fn src/app/run.rs handle_run rules=R1,R10,R12 props=C05,C11,C12,C13,C19,C03,C09
 pub(crate) async fn handle_run<'a>(
     cfg: &'a core::Config,
     input: &'a HandleRunInput<'a>,
@@ -294,7 +303,7 @@ pub(crate) async fn handle_run<'a>(
     let (index, target_groups) = match input.targets.len() {
         0 => {
             let ths = cfg.get_target_path_set();
-            let mut index = core::Index::new(cfg, &ths, work_path)?;
+            let mut index = core::Index::new_w(Tracked(w), cfg, &ths, work_path)?;
             let checkpoint = match tracking_table.open_checkpoint(Tracked(w)) {
                 Ok(checkpoint) => Some(checkpoint),
                 Err(MonorailError::TrackingCheckpointNotFound(_)) => None,
@@ -307,7 +316,7 @@ pub(crate) async fn handle_run<'a>(
             let changes = match checkpoint {
                 Some(checkpoint) => match cfg.change_provider.r#use {
                     ChangeProviderKind::Git => Some(
-                        git::get_git_all_changes(&input.git_opts, &checkpoint, work_path).await?,
+                        git::get_git_all_changes(&input.git_opts, &checkpoint, work_path, Tracked(w)).await?,
                     ),
                 },
                 None => None,
@@ -347,7 +356,7 @@ pub(crate) async fn handle_run<'a>(
             (index, target_groups)
         }
         _ => {
-            let mut index = core::Index::new(cfg, &input.targets, work_path)?;
+            let mut index = core::Index::new_w(Tracked(w), cfg, &input.targets, work_path)?;
             let target_groups = if input.include_deps {
                 let ai = analyze::AnalyzeInput::new(false, false, true);
                 let ao = analyze::analyze(&ai, &mut index, None)?;
